@@ -567,7 +567,7 @@ pub fn random_abstract(rng: &mut Rng, size: usize, break_links: bool) -> Value {
         let fid = next();
         walls.push(json!({"id": fid, "space": s, "cons": brkp(rng, &wcs[..nwc]), "next": -1,
             "bounds": if rng.chance(1, 2) { "GROUND" } else { "EXTERIOR" }, "tilt": "BOTTOM", "orient": "S",
-            "area": 2500 * rng.range(8, 60)}));
+            "area": 2500 * if rng.chance(1, 8) { rng.range(1, 4) } else { rng.range(8, 60) }}));
         let nw = 1 + rng.below(size.min(5));
         for _ in 0..nw {
             let wid = next();
